@@ -15,6 +15,22 @@ CHECKS = {
    "For all 16 invoke/group/length settings x 6 category layouts x unk multiplicities x lexicons x max_grouping_len x ignore_space and all sentences within the bound, the multiset of lattice nodes equals the candidate set computed from the statement; the character table is compared on all range bounds +-1, U+0000, U+FFFF and astral probes.",
    "the scan structure under ignore_space (which boundary a word after a gap connects to) follows the implementation where no property fixes it",
    "bounded exhaustive input enumeration against a reference candidate generator"),
+ "C04": ("E2 operation-history explorer + E3 preemption-bounded scheduler", "4.C04",
+   "All histories of one worker over {reset_sentence(s) for 6 sentences, tokenize} up to depth 5/7 are executed on a real worker and compared with the reference state machine; all interleavings of 2-3 real OS threads (own worker each, one shared tokenizer) at the instrumented yield points with at most 2/3 preemptions are executed under a baton scheduler and each thread's observations compared with the sequential ones; a failing schedule is replayed twice.",
+   "yield points sit at entry/exit/inside reset_sentence and tokenize and at every lattice position; memory-ordering effects are not modelled; threads blocked on real locks are detected through /proc and treated as disabled",
+   "stateless model checking of real threads under a controlled scheduler (iterative context bounding) + bounded exhaustive operation-history enumeration"),
+ "C05": ("E2 lock-step bisimulation + E5 dual build", "4.C05",
+   "For every dictionary reached by a history of depth <= 2 over {load user x2, clear, map x4, write->read} on 4 connector variants, the instance is written, re-read, re-written (bytes and reported length compared) and then run in lock-step with its reloaded twin under every continuation of depth <= 2/3, comparing op outcomes, images, the whole connection table and the tokens of all sentences <= 4/5 chars; images and observation tables are exchanged between the portable and the AVX2 build in both directions.",
+   "the dual connector's template split depends on hash order, so a twin is always reloaded from the very instance it is compared with",
+   "explicit-state exploration of operation histories with a bisimulation oracle"),
+ "C06": ("E2 operation-history explorer + conn-cost hook", "4.C06",
+   "All histories of depth <= 3/4 over {map x4, load user x2, clear, write->read} containing a map, on matrix/raw/dual dictionaries with 4 ids per side: the mapped dictionary must equal the never-mapped twin on every token field of all sentences <= 4/5 chars (ids through the composed permutation) and its connection table must be the permuted structural table; all 36 permutation pairs for a single map; every mapping iterator over {0..n} of length 0..n+1 must be accepted iff it is a permutation of 1..n-1 and never panic.",
+   "tie-breaking is positional and independent of ids, so exact token equality with the twin is implied by the statement",
+   "explicit-state exploration of operation histories against a reference state (composed permutation) and a differential twin"),
+ "C08": ("E1 + E2 + lattice hook", "4.C08",
+   "For every lexicon/cost dictionary with each of 3 user lexicons, option setting and sentence <= 5/6 chars, lattice candidates and optimal cost equal those of the dictionary whose system lexicon is extended by the same rows; all load/replace/clear histories to depth 3/4 (also on a mapped dictionary) behave like the canonical history; user rows with ids in {0,n-1,n,n+1,65535}^2 and malformed CSVs are accepted iff valid, in 5 contexts, never panicking.",
+   "candidate equality is modulo lexicon type and word id, as the statement says",
+   "bounded exhaustive input and history enumeration with a differential oracle"),
 }
 
 NOT_YET = {}
